@@ -20,11 +20,21 @@ CLAIMED = {
             "World R, hash-binding focus: every attempt starts from a Merkle-valid batch; the adversary sets the public input to the hash of its own forged packing (v+k*r representatives with NBits forged to exactly those bits, swapped/little-endian/wide packings, reordered fields, earlier batch's hash, neighbours) or keeps the original hash for a different but Merkle-consistent batch; all must be rejected while hash+k*r (same field element) must be accepted; on every accepting evaluation the public wire must equal the contract's own Keccak of the canonical packing. One- and multi-block message sizes for both modes (deletion batch 18-20 crosses the 136-byte rate).",
             "Trusted as C01; the contract's packing is written from the property text.",
             "6.C03"),
+    "C07": ("exploration",
+            SIM + "real Groth16 prove/verify of both modes with seeded crypto/rand; faulty prover-to-contract channel (wrong, stale, foreign and perturbed hashes, other-mode system, altered proof points) and dishonest sequencer (invalid / mis-shaped parameters) over short rollup histories",
+            "World R at Groth16 fidelity: two real proving systems per worker (keys from a seeded stream), valid batches from the contract model proved by the real prover with tape-chosen randomness; each proof is delivered 12..20 times through a faulty channel and the real Verify* wrappers must accept exactly own hash and hash+k*r on the same system and reject neighbours, random values, the hash of a perturbed batch, the earlier batch's hash, a stale proof for the new hash, the other mode's system and altered A/B/C points; invalid batches from the adversary catalogue and eight kinds of mis-shaped parameter sets must yield (nil, error) without panicking.",
+            "Trusted: Groth16 soundness itself; the contract model for validity; seeded sampling.",
+            "6.C07"),
     "C08": ("exploration",
             SIM + "seeded sequencer histories through the real tree and real input-hash helpers, steered (grinding) into roots with leading zero bytes; compared with the contract model's packing and evaluated on the real compiled circuit",
             "World R, honest sequencer: histories of 3..8 batches per run are built with the real PoseidonTree and hashed by the real ComputeInputHashInsertion/Deletion; a grind operation searches commitments (~48 Poseidon evaluations) until pre- and/or post-roots have a leading zero byte, the state the defect needs; every batch's hash is compared with the contract model's Keccak over the canonical fixed-width packing and the parameters are solved on the real R1CS. Found the unpadded-root defect on the pinned tree (fixed, see KNOWN_FINDINGS). The gen-test-params consequence is exercised at process level under C19.",
             "Trusted: x/crypto Keccak, packing from the property text; reach probes (pre/post/both roots short) are reported in evidence.",
             "6.C08"),
+    "C10": ("exploration",
+            SIM + "proof bytes decided by the seeded crypto/rand seam; real proofs plus a forged-proof adversary (generator multiples searched for short coordinates) round-tripped through the repository's JSON codec against an independent EVM-order decoder and the verifier",
+            "Every proof (real ones with tape-chosen prover randomness; forged ones assembled from small multiples of the generators with 1..31 leading zero bytes, incl. (1,2)) is encoded by the repository, decoded by our own decoder and compared coordinate by coordinate with gnark's proof struct in the order A.x A.y B.x1 B.x0 B.y1 B.y0 C.x C.y, decoded by the repository and compared with the original, and verified before and after. Found the left-aligned-copy defect on the pinned tree (fixed, see KNOWN_FINDINGS). Proofs crossing the simulated HTTP wire are additionally decoded under C09/C13.",
+            "Trusted: gnark-crypto point arithmetic; reflection over gnark's internal proof struct for ground truth; EVM order from the property text.",
+            "6.C10"),
     "C18": ("exploration",
             "deterministic simulation: seeded update histories of the real off-chain tree in lock-step with a reference leaf-array model; tape shrinking + fresh-process replay",
             "Seeded histories (1..200 updates, depths 1..32, overwrites, zero writes, extreme and neighbouring indices, aliasing probes on earlier returned paths) drive the real PoseidonTree in lock-step with an independent sparse leaf-array model; root, returned path (old value/old root, new value/new root), sibling equality and read-back of untouched leaves are compared after every step. Exploration is the right level: the property quantifies over histories, and a model-based seeded search with shrinking covers far more histories than the suite's zero.",
